@@ -18,7 +18,8 @@ RULE = ("reduced-form indexed grammars (<=4 non-terminals, <=2 indices, <=8 rule
         "(cross-checked by the all-subsets fixpoint and by bounded derivation search); all verdicts of one grammar "
         "must agree; remove_useless_rules() must keep the verdict; intersection(r).is_empty() is compared with the "
         "reference-side product with the reference-determinised r (Regex / DFA / eps-NFA, <=2 DFA states). "
-        "Non-trivial: >=3 rules incl. a production or duplication rule; distinct = hash of the rule set.")
+        "Non-trivial: >=3 rules incl. a production or duplication rule; distinct = hash of the rule set."
+        ' Later additions: grammars built around one derivation that returns to the pushing non-terminal (detour), several ways of consuming a pushed index (alternatives), duplication-rule variants over one pair; verdicts also judged against the rules as listed by the caller; products intersected again; the rule set grown after a query.')
 ASSUMPTIONS = ["oracle step limit: a case on which the reference fixpoint gives up is discarded, never judged",
                "the library's marking is exponential on some duplication-heavy grammars: a case that exceeds the "
                "wall-clock watchdog is counted inconclusive (tolerated up to 15 % of the cases; the count is in the evidence), never judged"]
